@@ -59,7 +59,26 @@ Proof.
 Qed.
 Print Assumptions C10_exact_unflushed_history_refuted.
 
-(* What holds: when everything acknowledged before CREATE PIPE is readable at that moment, for every schedule in
+(* Refutation 4: the WriteEvent of a write that completed before CREATE PIPE is still queued in the channel when the
+   pipe is created (the notificatior lags); it is delivered to the new pipe as its first notification and the
+   events written before the pipe existed are copied. *)
+Definition C10_exact_stale_statement : Prop :=
+  forall tags pre q sched, Forall (fun we : nat * nat => snd we <= length pre) q -> Forall enq_in_order sched ->
+    let s := run true tags (init_stale pre q) sched in
+    alive s = true -> quiescent s = true -> dst s = expected tags (length pre) (log s).
+Theorem C10_exact_stale_notification_refuted : ~ C10_exact_stale_statement.
+Proof.
+  intros H.
+  pose (e0 := {| e_ts := 1%Z; e_msg := [x6f; x6c; x64]; e_flds := []; e_keep := true |}).
+  specialize (H [] [e0] [(0, 1)] (LDeliver :: works 8)).
+  assert (Hq : Forall (fun we : nat * nat => snd we <= length [e0]) [(0, 1)]) by (repeat constructor).
+  assert (Ho : Forall enq_in_order (LDeliver :: works 8)) by (repeat constructor).
+  specialize (H Hq Ho). vm_compute in H. specialize (H eq_refl eq_refl). discriminate H.
+Qed.
+Print Assumptions C10_exact_stale_notification_refuted.
+
+(* What holds: when everything acknowledged before CREATE PIPE is readable and notified at that moment (init: channel
+   empty), for every schedule in
    which the writers of the source send their WriteEvents in the order of their journal positions, and either
    the filter is applied (the proposed fix) or F accepts everything that is written: the full statement --
    including clean restarts anywhere. *)
@@ -71,6 +90,24 @@ Theorem C10_exact_partial : forall af tags pre c0 sched,
   alive s = true -> quiescent s = true -> dst s = expected tags (length pre) (log s).
 Proof. exact exact_partial. Qed.
 Print Assumptions C10_exact_partial.
+
+(* Many sources: in every product schedule (the steps of all sources interleaved arbitrarily), every source that is
+   alive and quiescent holds exactly its own expected copy, provided its own steps satisfy the hypotheses above *)
+Theorem C10_exact_multi : forall af tagss pres sched j,
+  length tagss = length pres -> j < length pres ->
+  let ss := prun af tagss (map (fun pre => init pre (length pre)) pres) sched in
+  let s := nth j ss (init [] 0) in
+  (af = true \/ Forall write_all_keep (proj j sched)) -> Forall enq_in_order (proj j sched) ->
+  alive s = true -> quiescent s = true ->
+  dst s = expected (nth j tagss []) (length (nth j pres [])) (log s).
+Proof.
+  intros af tagss pres sched j Hlen Hj ss s Hf Ho.
+  assert (Hs : s = run af (nth j tagss []) (init (nth j pres []) (length (nth j pres []))) (proj j sched)).
+  { unfold s, ss. rewrite (prun_nth af tagss sched _ j (init [] 0) []) by (rewrite map_length; assumption).
+    f_equal. change (init [] 0) with ((fun pre => init pre (length pre)) []). rewrite map_nth. reflexivity. }
+  rewrite Hs. exact (exact_partial af (nth j tagss []) (nth j pres []) _ (proj j sched) eq_refl Hf Ho).
+Qed.
+Print Assumptions C10_exact_multi.
 
 (* provenance and content of one copied event *)
 Theorem C10_transform : forall tags e,
